@@ -15,6 +15,7 @@ EXPLANATION = (
     "timer.precision() is read only on the is_tune edge and before the loop; the single loop header (C04/R04.2) governs "
     "tuning and collecting rounds alike, so max_time covers tuning."
     " R19.5 tuning rounds are discarded with their allocation and counter data. R19.6 (= R11.3) the precision the threshold divides by is a measured minimum, never the sentinel. R19.7 (= R03.8) BenchMode predicates and sample_size() tables.")
+EXPLANATION += (' R19.8 (= R08.1) the start barrier precedes the start timestamp on every recorder path.')
 NOT_DECIDED = ["the sizes actually reached for a given cost profile", "non-zero-ness of the measured timer precision (runtime)"]
 
 
